@@ -26,7 +26,7 @@ NOT_DECIDED = "That the accepted grammar is the intended one; behaviour of the r
 
 
 def check(run):
-    for cfg in ("A", "C"):
+    for cfg in run.cfgs("A", "C"):
         F = run.facts(cfg)
         run.guard("C11.1.totality", cfg, lambda: a7.check_cone(
             run, "C11.1.totality", F, cfg, a7_cones.PARSE_ROOTS, a7_common.rows(), a7_common.ALL,
